@@ -676,7 +676,47 @@ def _repair(world):
     return undo
 
 
+def _mut_prefix(variant):
+    """the behaviours /repo had before 9c1ea78 and 39058d0"""
+    def install(world):
+        lhm, lcm = world.lhm, world.lcm
+        W = lhm.LighthouseMemHelper._ObjectWriter
+        R = lhm.LighthouseMemHelper._ObjectReader
+        undo = []
+
+        def write(self, object_dict, write_done_cb):
+            if self._objects_to_write is not None:
+                raise Exception('Write operation not finished')
+            self._write_done_cb = write_done_cb
+            self._objects_to_write = dict(object_dict)
+            self._write_failed_for_one_or_more_objects = False
+            self._write_next_object()
+
+        def read_all(self, read_done_cb):
+            if self._read_done_cb is not None:
+                raise Exception('Read operation not finished')
+            self._result = {}
+            self._next_id = 0
+            self._read_done_cb = read_done_cb
+            self._get_object(0)
+
+        def received(self, packet):
+            if packet.type == self._cf.loc.LH_PERSIST_DATA:
+                self._next()
+
+        if variant == 'writer_wedge':
+            _patch(undo, W, 'write', write)
+        elif variant == 'reader_wedge':
+            _patch(undo, R, 'read_all', read_all)
+        elif variant == 'persist_result_ignored':
+            _patch(undo, lcm.LighthouseConfigWriter, '_received_location_packet', received)
+        return undo
+    return install
+
+
 MUTANTS = {'_repair': _repair}
+for _v in ('writer_wedge', 'reader_wedge', 'persist_result_ignored'):
+    MUTANTS['prefix_' + _v] = _mut_prefix(_v)
 for _v in ('no_guard', 'persist_before_calibs', 'persist_geo_only', 'cb_before_ack', 'ignore_write_failure', 'no_padding'):
     MUTANTS['cw_' + _v] = _mut_cw(_v)
 for _v in ('writer_forgets_failure', 'writer_cb_twice', 'reader_stops_at_failure', 'reader_key_off_by_one',
@@ -924,23 +964,26 @@ def run_scenarios(scs, mutant=None):
 
 
 def detect_as_is():
-    """Which of the two known as-is behaviours does the tree under test have?  (Only selects the design-spec
+    """Which of the known as-is / pre-fix behaviours does the tree under test have?  (Only selects the design-spec
     variant the conformance check compares with; the verdict does not depend on it.)"""
     _init()
     bugs = []
     w = World(2)
     try:
         w.call(D('wg', objs=[[0, 1, 1]]))
-        w.call(D('wc', objs=[[0, 2, 1]]))
+        w.call(D('wc', objs=[[0, 2, 1]]))                 # refused: the memory is busy
         if w.helper.calib_writer._objects_to_write is not None:
             bugs.append('wedge')
+        w.call(D('st', objs=[[0, 3, 1]], hasg=1))         # refused for the same reason
+        if w.writer._data_stored_cb is not None:
+            bugs.append('store_wedge')
     finally:
         w.close()
     t = run_script({'nbs': 1, 'steps': [['call', D('st', objs=[[0, 1, 1]], hasg=1)], ['w', 1], ['p', 0]]})
     cbs = [e for c in t['chunks'] for e in c['ev'] if e['e'] == 'cb']
     if cbs and cbs[0]['ok'] == 1:
         bugs.append('pack')
-    return bugs
+    return sorted(bugs)
 
 
 # --------------------------------------------------------------------------- the check
@@ -985,21 +1028,24 @@ def signature(trace, clause, at):
     return '%s/%s' % (clause, e['e'])
 
 
-BUGSET = {('pack', 'wedge'): 'BugsAsIs', ('wedge',): 'BugsWedge', ('pack',): 'BugsPack', (): 'BugsNone'}
+AS_IS_IN_CFG = ['store_wedge']          # what SIM_LhConfig.cfg / TOUR_LhConfig.cfg say (Bugs <- BugsAsIs in MC_LhConfig.tla)
 
 
 def variant_cfg(cfg, as_is, scratch):
-    """SIM_/TOUR_LhConfig.cfg are written for the as-is tree (Bugs <- BugsAsIs); for a (partly) repaired tree the same
-    configuration with the matching bug set is written to the scratch directory."""
+    """SIM_/TOUR_LhConfig.cfg are written for the current tree (Bugs <- BugsAsIs); for a tree that behaves differently
+    the same configuration with the detected bug set is written to the scratch directory."""
     import os
-    if tuple(as_is) == ('pack', 'wedge'):
+    if list(as_is) == AS_IS_IN_CFG:
         return cfg
-    text = open(os.path.join(tlc.SPEC_DIR, cfg)).read().replace('Bugs <- BugsAsIs', 'Bugs <- ' + BUGSET[tuple(as_is)])
+    text = open(os.path.join(tlc.SPEC_DIR, cfg)).read().replace(
+        'Bugs <- BugsAsIs', 'Bugs = {%s}' % ', '.join('"%s"' % b for b in as_is))
     path = os.path.join(scratch, cfg)
     with open(path, 'w') as f:
         f.write(text)
     return path
-BUG_CFGS = ['wedge', 'pack', 'noguard', 'early_persist']
+
+
+BUG_CFGS = ['store_wedge', 'wedge', 'pack', 'noguard', 'early_persist']
 
 
 def main(tier, seed, replay=None):
